@@ -226,7 +226,10 @@ func runProgram(r *rng.R, pid int, wo, wi *bufio.Writer) {
 			layers = append(layers, layer{kind: k, st: cachekv.NewStore(top)})
 			desc = append(desc, "cache")
 		case "prefix":
-			pf := randPrefix(r)
+			pf0 := randPrefix(r)
+			// spare capacity, as append(name, '/') in types/param.go produces: exposes aliasing of the prefix slice
+			pf := make([]byte, len(pf0), len(pf0)+16)
+			copy(pf, pf0)
 			layers = append(layers, layer{kind: k, pfx: pf, st: prefix.NewStore(top, pf)})
 			desc = append(desc, "prefix:"+hx(pf))
 		case "gas":
